@@ -274,6 +274,11 @@ def scenarios():
     add('d-emptyfile-rm', 'd', '-d --rm x.zst', {'x.zst': b''}, [(['x.zst'], 'x')], note='zero-byte input: no frame, helper rejects')
     add('d-mixed-two-rm', 'd', '-d --rm a.txt.zst x.zst', {'a.txt.zst': Z['text5k'], 'x.zst': K['flip']},
         [(['a.txt.zst'], 'a.txt'), (['x.zst'], 'x')], quick=True)
+    # the damaged file FIRST: what it leaves in the shared decoder must not decide the verdict of the valid file after it
+    add('d-mixed-trunc-first-rm', 'd', '-d --rm x.zst a.txt.zst', {'a.txt.zst': Z['text5k'], 'x.zst': K['trunchalf']},
+        [(['x.zst'], 'x'), (['a.txt.zst'], 'a.txt')], quick=True)
+    add('d-mixed-flip-first-rm', 'd', '-d --rm x.zst a.txt.zst z.bin.zst', {'a.txt.zst': Z['text5k'], 'x.zst': K['flip'], 'z.bin.zst': Z['z40k']},
+        [(['x.zst'], 'x'), (['a.txt.zst'], 'a.txt'), (['z.bin.zst'], 'z.bin')])
     add('d-passthrough', 'd', '-d -c -f plain.txt', {'plain.txt': T}, [(['plain.txt'], 'out.txt')], stdout='out.txt', verdict_excluded=True,
         note='documented gzip-style pass-through of non-zstd input with -d -c -f: excluded from verdict comparison')
     # sparse on / off / default over the zero-run layouts: outputs must be byte-identical
@@ -615,6 +620,14 @@ def task_fail(arg):
     viols, fl = crash_oracle(sc, r['state'])
     if r['status'] == 0 and not sc.verdict_excluded:
         viols.append('write-failure-ignored: a data write failed with ENOSPC (call #%d) but the exit status is 0' % k)
+    # "a failed operation ... leaves no output file behind": whatever destination is still there must be complete (the other files of a multi-file run may
+    # have succeeded); stdout and destinations that existed before the run cannot be removed by zstd
+    if not sc.verdict_excluded:
+        for srcs, dst in sc.pairs:
+            if dst is None or dst in srcs or dst == sc.stdout or dst in sc.pre:
+                continue
+            if dst in r['state'] and not dst_complete(sc, srcs, dst, r['state']):
+                viols.append('artefact-left-behind-after-write-failure: %s (%d bytes, incomplete) remains after a data write failed with ENOSPC, status %s' % (dst, len(r['state'][dst]), r['status']))
     return dict(si=si, k=k, injected=True, viols=viols)
 
 
